@@ -243,7 +243,12 @@ pub fn impl_(ctx: &Context, input: &DeriveInput) -> TokenStream {
             });
             quote! {
                 let __flatty_offset = 0;
-                #body
+                // Only the part of the buffer that the resulting reference covers is used.
+                let __flatty_len = ::flatty::utils::floor_mul(__flatty_bytes.len(), <#self_ident<#self_args> as ::flatty::traits::FlatBase>::ALIGN);
+                {
+                    let __flatty_bytes = __flatty_bytes.get_unchecked_mut(..__flatty_len);
+                    #body
+                }
             }
         }
         Data::Enum(data) => {
@@ -290,6 +295,9 @@ pub fn impl_(ctx: &Context, input: &DeriveInput) -> TokenStream {
                     #init_ident::#ident #pat => {
                         let __flatty_offset = <#self_ident<#self_args>>::DATA_OFFSET;
                         let (__flatty_tag_bytes, __flatty_bytes) = __flatty_bytes.split_at_mut(__flatty_offset);
+                        // Only the part of the buffer that the resulting reference covers is used.
+                        let __flatty_len = ::flatty::utils::floor_mul(__flatty_bytes.len(), <#self_ident<#self_args> as ::flatty::traits::FlatBase>::ALIGN);
+                        let __flatty_bytes = __flatty_bytes.get_unchecked_mut(..__flatty_len);
                         #check
                         #set_tag
                         #body
